@@ -2,7 +2,7 @@
    Statements only; proofs are applications of lemmas from SAV.sql.CacheKey*. *)
 From Coq Require Import List NArith ZArith Bool.
 Import ListNotations.
-From SAV.sql Require Import CacheKey CacheExec CacheKeyProofs CacheKeyBinds CacheExecProofs CacheKeyMain CacheKeyRef.
+From SAV.sql Require Import CacheKey CacheExec CacheKeyProofs CacheKeyBinds CacheExecProofs CacheKeyMain CacheKeyRef CacheKeyTypes.
 
 (* 1. T1 theorem.  T: per class, what the cache key records (from _traverse_internals / the custom
       _gen_cache_key methods); V: per class, the attributes the compiler's output depends on.
@@ -52,17 +52,32 @@ Theorem c02_extracted_parameters_follow_the_key :
 Proof. exact gen_key_labels. Qed.
 Print Assumptions c02_extracted_parameters_follow_the_key.
 
+(* the type component: TypeEngine._static_cache_key with the "is not None" skip test is injective in
+   the constructor arguments of a class (0 / False / '' are kept apart from "not given") ... *)
+Theorem c02_type_key_injective :
+  forall a1 a2 : list targ, length a1 = length a2 ->
+  tkey SkipNone a1 = tkey SkipNone a2 -> map eff a1 = map eff a2.
+Proof. exact tkey_injective. Qed.
+Print Assumptions c02_type_key_injective.
+(* ... and is not with a truthiness test: Numeric(10, 0) / Numeric(10) *)
+Theorem c02_type_key_truthiness_refuted :
+  tkey SkipFalsy numeric_10_0 = tkey SkipFalsy numeric_10 /\ map eff numeric_10_0 <> map eff numeric_10 /\
+  tkey SkipNone numeric_10_0 <> tkey SkipNone numeric_10.
+Proof. exact tkey_falsy_not_injective. Qed.
+Print Assumptions c02_type_key_truthiness_refuted.
+
 (* 2. construct_params(extracted_parameters=...) on a Compiled made from s0 returns, in order, the
-      values of the statement s being executed - never those of s0 *)
+      values of the statement s being executed - never those of s0 - for EVERY parameter set of the
+      execution (one for a plain execution, n for an executemany); a set may override a statement bind *)
 Theorem c02_rebind_positional_guarded :
   forall (T : ttab) (V : vtab) (G : list (N * N)), covers T (vminus V G) = true ->
   forall (SQL : Type) (render : atom -> ktree -> SQL * list N),
   (forall ctx v, incl (snd (render ctx v)) (kbl T v)) ->
-  forall ctx s0 s k b0 b,
+  forall ctx s0 s k b0 b (sets : list pset),
   wf T s0 = true -> wf T s = true -> gapfree G s0 = true -> gapfree G s = true ->
   gen_key T s0 = Some (k, b0) -> gen_key T s = Some (k, b) -> map bcall b0 = map bcall b ->
-  (tsql SQL (compile T V SQL render ctx s0 b0), rebind SQL (compile T V SQL render ctx s0 b0) b)
-  = exec_direct T V SQL render ctx s.
+  (tsql SQL (compile T V SQL render ctx s0 b0), rebind_many SQL (compile T V SQL render ctx s0 b0) b sets)
+  = exec_direct T V SQL render ctx s sets.
 Proof. exact rebind_positional_gaps. Qed.
 Print Assumptions c02_rebind_positional_guarded.
 
@@ -77,7 +92,7 @@ Theorem c02_cached_exec_eq_direct_guarded :
   (forall s, In s (stmts (h1 ++ h2)) -> wf T s = true /\ gapfree G s = true) ->
   cunib T (stmts (h1 ++ h2)) = true ->
   fst (run T V SQL render (snd (run T V SQL render [] h1)) h2)
-  = map (fun x => exec_direct T V SQL render (s_ctx x) (s_stmt x)) h2.
+  = map (fun x => exec_direct T V SQL render (s_ctx x) (s_stmt x) (s_sets x)) h2.
 Proof.
   intros T V G Hc SQL render Hh h1 h2 HU Hg.
   exact (cached_exec_eq_direct_gaps T V G Hc SQL render Hh h1 h2 HU (cunib_sound T _ Hg)).
@@ -93,7 +108,7 @@ Theorem c02_cached_exec_eq_direct_full_table_guarded :
   (forall s, In s (stmts (h1 ++ h2)) -> wf T s = true) ->
   cunib T (stmts (h1 ++ h2)) = true ->
   fst (run T V SQL render (snd (run T V SQL render [] h1)) h2)
-  = map (fun x => exec_direct T V SQL render (s_ctx x) (s_stmt x)) h2.
+  = map (fun x => exec_direct T V SQL render (s_ctx x) (s_stmt x) (s_sets x)) h2.
 Proof.
   intros T V Hc SQL render Hh h1 h2 HU Hg.
   exact (cached_exec_eq_direct T V Hc SQL render Hh h1 h2 HU (cunib_sound T _ Hg)).
@@ -110,8 +125,8 @@ Theorem c02_cached_exec_refuted :
   (forall ctx v, incl (snd (render_ref ctx v)) (kbl T_ref v)) /\
   (forall s, In s (stmts h) -> wf T_ref s = true /\ gapfree G_ref s = true) /\
   cunib T_ref (stmts h) = false /\
-  map snd (fst (run T_ref V_ref ktree render_ref [] h)) = [[A 3]; [ANone]] /\
-  map (fun x => snd (exec_direct T_ref V_ref ktree render_ref (s_ctx x) (s_stmt x))) h = [[A 3]; [A 4]].
+  map snd (fst (run T_ref V_ref ktree render_ref [] h)) = [[[A 3]]; [[ANone]]] /\
+  map (fun x => snd (exec_direct T_ref V_ref ktree render_ref (s_ctx x) (s_stmt x) (s_sets x))) h = [[[A 3]]; [[A 4]]].
 Proof.
   cbv zeta. split; [vm_compute; reflexivity|]. split; [intros ctx v; apply incl_refl|].
   split; [intros s [<-|[<-|[]]]; vm_compute; split; reflexivity|].
@@ -123,7 +138,7 @@ Print Assumptions c02_cached_exec_refuted.
    on every execution and never enter the cache *)
 Example c02_uncacheable_statements :
   gen_key T_ref s_values = None /\ gen_key T_ref s_nokey = None /\ wf T_ref s_values = true /\
-  map snd (fst (run T_ref V_ref ktree render_ref [] [step_of s_values; step_of s_3; step_of s_values])) = [[A 5]; [A 3]; [A 5]] /\
+  map snd (fst (run T_ref V_ref ktree render_ref [] [step_of s_values; step_of s_3; step_of s_values])) = [[[A 5]]; [[A 3]]; [[A 5]]] /\
   length (snd (run T_ref V_ref ktree render_ref [] [step_of s_values; step_of s_3; step_of s_values])) = 1%nat.
 Proof. repeat split; vm_compute; reflexivity. Qed.
 
@@ -131,14 +146,15 @@ Proof. repeat split; vm_compute; reflexivity. Qed.
    evicted) satisfying every hypothesis of the guarded theorem; the column object is shared *)
 Example c02_hypotheses_satisfiable :
   let h1 := [step_of s_3] in
-  let h2 := [step_of s_9; mkStep ctx0 s_3 false (fun _ => false); mkStep ctx0 s_9 true (fun _ => true); step_of s_3] in
+  let h2 := [step_of s_9; mkStep ctx0 s_3 false (fun _ => false) [[]]; mkStep ctx0 s_9 true (fun _ => true) [[]]; step_of s_3;
+             many_of s_9] in
   covers T_ref (vminus V_ref G_ref) = true /\
   (forall s, In s (stmts (h1 ++ h2)) -> wf T_ref s = true /\ gapfree G_ref s = true) /\
   cunib T_ref (stmts (h1 ++ h2)) = true /\
   map snd (fst (run T_ref V_ref ktree render_ref (snd (run T_ref V_ref ktree render_ref [] h1)) h2))
-  = [[A 9]; [A 3]; [A 9]; [A 3]].
+  = [[[A 9]]; [[A 3]]; [[A 9]]; [[A 3]]; [[A 9]; [A 55]; [A 9]]].     (* last: an executemany on a warm cache *)
 Proof.
   cbv zeta. split; [vm_compute; reflexivity|].
-  split; [intros s [<-|[<-|[<-|[<-|[<-|[]]]]]]; vm_compute; split; reflexivity|].
+  split; [intros s [<-|[<-|[<-|[<-|[<-|[<-|[]]]]]]]; vm_compute; split; reflexivity|].
   split; vm_compute; reflexivity.
 Qed.
